@@ -353,4 +353,156 @@ theorem subFilter_of_mono (c : SubCfg) (child parent : LGraph) (hc : child.WF) (
       rw [this] at hs'
       exact hs'
 
+/-! ## the refined WL-1 filter is sound for isomorphic graphs -/
+
+theorem mem_neighbors (G : LGraph) (v u : Nat) : u ∈ G.neighbors v ↔ G.hasEdge v u = true := by
+  unfold LGraph.neighbors LGraph.hasEdge LGraph.edge?
+  rw [List.mem_filterMap, Option.isSome_map, List.find?_isSome]
+  constructor
+  · rintro ⟨e, he, h⟩
+    refine ⟨e, he, ?_⟩
+    split at h
+    · next h1 => cases h; simp [h1]
+    · split at h
+      · next h1 h2 => cases h; simp [h2]
+      · cases h
+  · rintro ⟨e, he, h⟩
+    simp only [decide_eq_true_eq] at h
+    refine ⟨e, he, ?_⟩
+    rcases h with ⟨h1, h2⟩ | ⟨h1, h2⟩
+    · rw [if_pos h1, h2]
+    · by_cases h3 : e.1 = v
+      · rw [if_pos h3, h2, ← h3, h1]
+      · rw [if_neg h3, if_pos h2, h1]
+
+theorem neighbors_nodup (G : LGraph) (hG : G.WF) (v : Nat) : (G.neighbors v).Nodup := by
+  have hnd := hG.2.2
+  rw [List.Nodup, List.pairwise_map] at hnd
+  unfold LGraph.neighbors
+  refine List.Pairwise.filterMap _ ?_ hnd
+  intro a a' hne b hb b' hb' e
+  subst e
+  apply hne
+  have key : ∀ x : Nat × Nat × Attrs, (if x.1 = v then some x.2.1 else if x.2.1 = v then some x.1 else Option.none) = some b →
+      (min x.1 x.2.1, max x.1 x.2.1) = (min v b, max v b) := by
+    intro x hx
+    split at hx
+    · next h1 => cases hx; rw [h1]
+    · split at hx
+      · next h1 h2 => cases hx; rw [h2, Nat.min_comm, Nat.max_comm]
+      · cases hx
+  rw [key a hb, key a' hb']
+
+theorem keyEq_iff (a b : Label × List Label) : keyEq a b = true ↔ a.1 = b.1 ∧ a.2.Perm b.2 := by
+  unfold keyEq
+  rw [Bool.and_eq_true, beq_iff_eq, List.isPerm_iff]
+
+theorem keyEq_congr_right (k a b : Label × List Label) (h : keyEq a b = true) : keyEq k a = keyEq k b := by
+  rw [keyEq_iff] at h
+  rw [Bool.eq_iff_iff, keyEq_iff, keyEq_iff]
+  constructor
+  · rintro ⟨h1, h2⟩; exact ⟨h1.trans h.1, h2.trans h.2⟩
+  · rintro ⟨h1, h2⟩; exact ⟨h1.trans h.1.symm, h2.trans h.2.symm⟩
+
+/-- The assignment of a mapping read as a function (0 off its domain). -/
+def mapFn (m : Mapping) (p : Nat) : Nat := (m.get? p).getD 0
+
+theorem mapFn_of_mem (m : Mapping) (hn : (m.map (·.1)).Nodup) (p h : Nat) (hm : (p, h) ∈ m) : mapFn m p = h := by
+  unfold mapFn; rw [get?_of_mem m hn p h hm]; rfl
+
+theorem get?_mapFn (m : Mapping) (p : Nat) (hp : p ∈ m.map (·.1)) : m.get? p = some (mapFn m p) := by
+  obtain ⟨h, hg, -⟩ := get?_isSome_of_mem_fst m p hp
+  unfold mapFn; rw [hg]; rfl
+
+theorem hasEdge_mem_ids (G : LGraph) (hG : G.WF) (u v : Nat) (h : G.hasEdge u v = true) : u ∈ G.ids ∧ v ∈ G.ids := by
+  unfold LGraph.hasEdge at h
+  cases hpe : G.edge? u v with
+  | none => rw [hpe] at h; cases h
+  | some pa =>
+    obtain ⟨e, he, -, hends⟩ := edge?_some_mem G u v pa hpe
+    obtain ⟨a, b, -⟩ := hG.2.1 e he
+    rcases hends with ⟨e1, e2⟩ | ⟨e1, e2⟩
+    · rw [← e1, ← e2]; exact ⟨a, b⟩
+    · rw [← e1, ← e2]; exact ⟨b, a⟩
+
+/-- A monomorphism sends adjacent nodes to adjacent nodes. -/
+theorem mono_hasEdge {sel : Sel} {H P : LGraph} {m : Mapping} (hm : IsMono sel H P m) (p q hp hq : Nat)
+    (g1 : m.get? p = some hp) (g2 : m.get? q = some hq) (he : P.hasEdge p q = true) : H.hasEdge hp hq = true := by
+  unfold LGraph.hasEdge at he
+  cases hpe : P.edge? p q with
+  | none => rw [hpe] at he; cases he
+  | some pa =>
+    obtain ⟨pe, hpe1, -, hends⟩ := edge?_some_mem P p q pa hpe
+    obtain ⟨hu, hv, ea, k1, k2, k3, -⟩ := hm.2.2.2 pe hpe1
+    unfold LGraph.hasEdge
+    rcases hends with ⟨e1, e2⟩ | ⟨e1, e2⟩
+    · rw [e1, g1] at k1; rw [e2, g2] at k2; cases k1; cases k2; rw [k3]; rfl
+    · rw [e1, g2] at k1; rw [e2, g1] at k2; cases k1; cases k2; rw [edge?_comm, k3]; rfl
+
+/-- **An isomorphism maps the neighbours of a node onto the neighbours of its image.** -/
+theorem iso_neighbors_perm (sel : Sel) (H P : LGraph) (m : Mapping) (hH : H.WF) (hP : P.WF) (hm : IsIso sel H P m)
+    (p : Nat) (hp : p ∈ P.ids) :
+    ((P.neighbors p).map (mapFn m)).Perm (H.neighbors (mapFn m p)) := by
+  have hsurj := iso_surj sel H P m hm
+  obtain ⟨⟨hmono, hind⟩, -⟩ := hm
+  have hfst : m.map (·.1) = P.ids := hmono.1
+  have hmfn : (m.map (·.1)).Nodup := by rw [hfst]; exact hP.1
+  have hget : ∀ q ∈ P.ids, m.get? q = some (mapFn m q) := fun q hq => get?_mapFn m q (by rw [hfst]; exact hq)
+  have hnbr : ∀ q ∈ P.neighbors p, q ∈ P.ids := fun q hq =>
+    (hasEdge_mem_ids P hP p q ((mem_neighbors P p q).1 hq)).2
+  refine (List.perm_ext_iff_of_nodup ?_ (neighbors_nodup H hH _)).2 ?_
+  · refine List.Nodup.map_on ?_ (neighbors_nodup P hP p)
+    intro x hx y hy e
+    exact get?_inj m hmono.2.1 x y (mapFn m x) (hget x (hnbr x hx)) (by rw [e]; exact hget y (hnbr y hy))
+  · intro h'
+    rw [List.mem_map, mem_neighbors]
+    constructor
+    · rintro ⟨q, hq, rfl⟩
+      exact mono_hasEdge hmono p q _ _ (hget p hp) (hget q (hnbr q hq)) ((mem_neighbors P p q).1 hq)
+    · intro he
+      obtain ⟨q, hq⟩ := hsurj h' (hasEdge_mem_ids H hH _ _ he).2
+      refine ⟨q, ?_, mapFn_of_mem m hmfn q h' hq⟩
+      rw [mem_neighbors]
+      cases hh : P.hasEdge p q with
+      | true => rfl
+      | false =>
+        have := hind p q _ _ (hget p hp) (get?_of_mem m hmfn q h' hq) hh
+        rw [this] at he; cases he
+
+/-- **Refined WL-1 filter, equal sizes, is sound**: an isomorphism makes the (label, multiset of
+neighbour labels) histogram of the pattern contained in (in fact equal to) the host's.  Only the
+equality on the selected node keys is used, not the hydrogen rule. -/
+theorem wlContained_of_iso (sel : Sel) (attrs : List String) (H P : LGraph) (m : Mapping) (hk : sel.nodeKeys = attrs)
+    (hH : H.WF) (hP : P.WF) (hm : IsIso sel H P m) : wlContained (wl1 H attrs) (wl1 P attrs) = true := by
+  subst hk
+  obtain ⟨f, hf, hs⟩ := mono_nodes_subperm hH.1 hP.1 hm.1.1
+  have hfst : m.map (·.1) = P.ids := hm.1.1.1
+  have hmfn : (m.map (·.1)).Nodup := by rw [hfst]; exact hP.1
+  unfold wlContained
+  rw [List.all_eq_true]
+  intro k _
+  rw [decide_eq_true_eq]
+  unfold wl1
+  rw [List.filter_map, List.length_map, List.filter_map, List.length_map]
+  refine filter_length_le_of_subperm P.nodes H.nodes f hs _ _ ?_
+  intro pn hpn
+  obtain ⟨h1, h2, h3⟩ := hf pn hpn
+  simp only [Function.comp]
+  apply keyEq_congr_right
+  rw [keyEq_iff]
+  refine ⟨baseLabel_eq_of_nodeOk sel _ _ h3, ?_⟩
+  simp only
+  have hpid : pn.1 ∈ P.ids := List.mem_map.2 ⟨pn, hpn, rfl⟩
+  have hfp : mapFn m pn.1 = (f pn).1 := mapFn_of_mem m hmfn _ _ h1
+  have hperm := iso_neighbors_perm sel H P m hH hP hm pn.1 hpid
+  rw [hfp] at hperm
+  refine (hperm.map (fun v => baseLabel sel.nodeKeys (H.attrs v))).symm.trans ?_
+  rw [List.map_map]
+  refine List.Perm.of_eq (List.map_congr_left ?_)
+  intro q hq
+  have hq' : q ∈ m.map (·.1) := by
+    rw [hfst]; exact (hasEdge_mem_ids P hP _ q ((mem_neighbors P _ q).1 hq)).2
+  have := (hm.1.1.2.2.1 _ (mem_of_get? m q _ (get?_mapFn m q hq'))).2
+  exact baseLabel_eq_of_nodeOk sel _ _ this
+
 end SynKit.GME
